@@ -10,6 +10,7 @@ from __future__ import annotations
 import ast
 
 import z3
+import vf.pyvc.engine as _eng
 
 from .engine import (Atom, B, I, Opaque, OpaqueFn, BoundMethod, ClassV, Closure, Coll, DictV, ModuleV, NONE, NoneV, Obj, Scalar, TupleV,
                      Unsupported, diff, empty_set, fresh, inter, mk_set, nonempty, set_sort, seteq, singleton, subset,
@@ -146,6 +147,7 @@ class PathTheory:
             self.ex.axioms.append(z3.ForAll([a, b], z3.Implies(z3.And(P(a, b), a != b), z3.Exists([c], E[a, c]))))
             self.ex.axioms.append(z3.ForAll([a, b], z3.Implies(z3.And(P(a, b), a != b), z3.Exists([c], E[c, b]))))
             self.rels[k] = (E, P)  # pin E: ast ids are recycled after garbage collection
+            _eng.PATH_PAIRS.append((E, P))   # lets solve() recognise counter-models in which P is not the closure of E
             for W, PW in self.watch:
                 self.ex.axioms.append(self.induct_rel(W, lambda x, y: P(x, y)))
                 self.ex.axioms.append(self.induct_rel(E, lambda x, y, PW=PW: PW(x, y)))
